@@ -7,7 +7,8 @@
    Two instances are used:
      * State/ArrOpsR.v  : V := nat -> R  (element index |-> value), all operations pointwise — proofs;
      * [q_ops] below    : V := scalar | list of Q, broadcasting as NumPy does, a 40-digit rational
-                          square root — running the model against the real optimizers.             *)
+                          square root, array quotients rounded to 60 digits — running the model against
+                          the real optimizers.                                                      *)
 From Coq Require Import List Bool Arith ZArith QArith String.
 Import ListNotations.
 
@@ -76,13 +77,20 @@ Definition qsqrt40 (x : Q) : Q :=
   let d := Zpos (Qden x) in
   Qred (Qmake (Z.sqrt (n * d * sqrt_scale * sqrt_scale)) (Qden x * Z.to_pos sqrt_scale)).
 
+(* quotients of the running instance are rounded down to 60 decimal digits: keeps the rationals of Adam/AdamW runs
+   (which are compared with float64 at relative 1e-9 anyway) small.  SGD uses no array division and stays exact. *)
+Definition div_scale : Z := (10 ^ 60)%Z.
+Definition qround60 (x : Q) : Q :=
+  Qred (Qmake ((Qnum x * div_scale) / Zpos (Qden x)) (Z.to_pos div_scale)).
+Definition qdiv60 (a b : Q) : Q := qround60 (a / b).
+
 Fixpoint qpown (x : Q) (n : nat) : Q := match n with O => 1 | S k => x * qpown x k end.
 
 Definition q_ops : arr_ops :=
   {| V := qval;
      vconst := fun q => QS q;
      vzeros_like := fun v => match v with QS _ => QS 0 | QA l => QA (map (fun _ => 0) l) end;
-     vadd := qbin Qplus; vsub := qbin Qminus; vmul := qbin Qmult; vdiv := qbin Qdiv;
+     vadd := qbin Qplus; vsub := qbin Qminus; vmul := qbin Qmult; vdiv := qbin qdiv60;
      vneg := qun Qopp; vsqrt := qun qsqrt40;
      vpown := fun v n => qun (fun x => qpown x n) v |}.
 
